@@ -94,6 +94,12 @@ func containerSize(children []Box) uint64 {
 	return boxHeaderSize + contentSize
 }
 
+// sizeMatchesInput checks the calculated size of a decoded box against the bytes it occupied in the input.
+// The calculated size is smaller by 8 bytes for every 64-bit size field (of the box or inside it) that is not kept.
+func sizeMatchesInput(size, inputSize uint64) bool {
+	return size <= inputSize && (inputSize-size)%largeSizeLen == 0
+}
+
 // DecodeContainerChildren decodes a container box
 func DecodeContainerChildren(hdr BoxHeader, startPos, endPos uint64, r io.Reader) ([]Box, error) {
 	children := make([]Box, 0, 8)
@@ -101,7 +107,7 @@ func DecodeContainerChildren(hdr BoxHeader, startPos, endPos uint64, r io.Reader
 	// Never read beyond the end of the container, and keep track of how much each child reads
 	cr := &countingReader{r: io.LimitReader(r, int64(endPos-startPos))}
 	for {
-		child, extraHdr, err := decodeBoxAndExtraHdr(pos, cr)
+		child, inputSize, err := decodeBoxAndInputSize(pos, cr)
 		if err == io.EOF {
 			return children, nil
 		}
@@ -109,8 +115,10 @@ func DecodeContainerChildren(hdr BoxHeader, startPos, endPos uint64, r io.Reader
 			return children, err
 		}
 		children = append(children, child)
-		// A box with 64-bit size field occupies 8 bytes more in the input than its (compact) Size()
-		pos += child.Size() + extraHdr
+		if !sizeMatchesInput(child.Size(), inputSize) {
+			return nil, fmt.Errorf("child %s size mismatch in %s: %d - %d", child.Type(), hdr.Name, child.Size(), inputSize)
+		}
+		pos += inputSize
 		if pos-startPos != cr.nrRead {
 			return nil, fmt.Errorf("child %s size mismatch in %s: %d - %d", child.Type(), hdr.Name, pos-startPos, cr.nrRead)
 		}
@@ -154,13 +162,15 @@ func DecodeContainerChildrenSR(hdr BoxHeader, startPos, endPos uint64, sr bits.S
 		if pos == endPos {
 			break
 		}
-		child, extraHdr, err := decodeBoxSRAndExtraHdr(pos, sr)
+		child, inputSize, err := decodeBoxSRAndInputSize(pos, sr)
 		if err != nil {
 			return children, err
 		}
 		children = append(children, child)
-		// A box with 64-bit size field occupies 8 bytes more in the input than its (compact) Size()
-		pos += child.Size() + extraHdr
+		if !sizeMatchesInput(child.Size(), inputSize) {
+			return nil, fmt.Errorf("child %s size mismatch in %s: %d - %d", child.Type(), hdr.Name, child.Size(), inputSize)
+		}
+		pos += inputSize
 		relPosFromSize := sr.GetPos() - initPos
 		if int(pos-startPos) != relPosFromSize {
 			return nil, fmt.Errorf("child %s size mismatch in %s: %d - %d", child.Type(), hdr.Name, pos-startPos, relPosFromSize)
